@@ -886,6 +886,19 @@ func (ld *c15Loaded) execNotify(kind string, k int, cxCh chan<- c15Ctx) (c15Obs,
 		probe.fired = true
 	}
 	cfg, collect := ld.config(false) // never a bufio.Writer here: the child's copier would race on it (C13)
+	if strings.Contains(ld.cs.Construct, "holds-stderr") {
+		// standard output is a file of the caller (children inherit it directly); the error stream stays in memory
+		if f, err := os.CreateTemp("", "c15-out-*"); err == nil {
+			defer func() { _ = f.Close(); _ = os.Remove(f.Name()) }()
+			cfg.Output = f
+			inner := collect
+			collect = func(o *run.Outcome) {
+				inner(o)
+				b, _ := os.ReadFile(f.Name())
+				o.Stdout = string(b)
+			}
+		}
+	}
 	cxCh <- cx
 	var obs c15Obs
 	obs.out = run.Exec(ld.prog, cfg, run.Opts{Interp: ip, StepLimit: c15Budget, Ctx: cx.ctx})
